@@ -15,6 +15,8 @@ use vcore::*;
 pub enum C04Case {
     Bin { a: Operand, b: Rhs, op: BinOp, form: Form },
     Not { a: Operand, owned: bool },
+    /// the same operators (and `!` on the left operand) on `Bvf<u8,320>`, outside the zoo
+    Wide(super::wide::WideCase),
 }
 
 pub struct C04;
@@ -31,7 +33,7 @@ impl Property for C04 {
         "C04"
     }
     fn rule(&self) -> String {
-        "Cases: (LHS operand of any zoo type/length/provenance, RHS vector of any type/length/provenance or native integer, op in {&,|,^}, one of 6 operator forms) and (operand, ! owned|borrowed). Enumerated: all (n,a,m,b) with n,m<=4 (quick) / <=6 (thorough) for all 20x20 type pairings and 3 ops; all (n<=4/6,a) x integer lattice x 20 x 6 native types; every LHS length up to capacity (<=320) against an all-ones RHS of length n+1 / next word boundary / RHS capacity for all pairings; ! on all values n<=8 and every length with 3 value classes. Random: proptest. Oracle: per-bit Boolean function on bit lists (RHS zero-extended, cut at n) + observer battery. Non-trivial: result differs from a AND (RHS longer than LHS with a set bit at index >= n, or LHS longer than RHS with a set bit above m); for !: n not a multiple of the storage word and n>0. Distinct by hash of the whole case.".into()
+        "Cases: (LHS operand of any zoo type/length/provenance, RHS vector of any type/length/provenance or native integer, op in {&,|,^}, one of 6 operator forms) and (operand, ! owned|borrowed). Enumerated: all (n,a,m,b) with n,m<=4 (quick) / <=6 (thorough) for all 20x20 type pairings and 3 ops; all (n<=4/6,a) x integer lattice x 20 x 6 native types; every LHS length up to capacity (<=320) against an all-ones RHS of length n+1 / next word boundary / RHS capacity for all pairings; ! on all values n<=8 and every length with 3 value classes. Long vectors: the 2560-bit and 70 400-bit fixed types and Bvd/Bv at 1024..8193 bits, every length 321..2600 (thorough 8300), and a geometric ladder of lengths around every power of two from 2^14 to 2^21 (thorough 2^24) bits. Also Bvf<u8,320> (2560 bits in one-byte words, outside the zoo) as left operand against {itself,Bvd,Bv,Bvf<u32,80>} and as right operand of Bvd, lengths 2040..2560, with ! on the left operand (non-trivial there: length not a multiple of 8, both values non-zero). Random: proptest. Oracle: per-bit Boolean function on bit lists (RHS zero-extended, cut at n) + observer battery. Non-trivial: result differs from a AND (RHS longer than LHS with a set bit at index >= n, or LHS longer than RHS with a set bit above m); for !: n not a multiple of the storage word and n>0. Distinct by hash of the whole case.".into()
     }
     fn random_cases(&self, tier: Tier) -> u64 {
         tier.pick(200000, 8000000)
@@ -40,6 +42,14 @@ impl Property for C04 {
         prop_oneof![
             6 => (arb_operand(tier), arb_rhs(tier), 0usize..3, arb_form()).prop_map(|(a, b, o, form)| C04Case::Bin { a, b, op: LOGIC[o], form }),
             1 => (arb_operand(tier), any::<bool>()).prop_map(|(a, owned)| C04Case::Not { a, owned }),
+            1 => (0usize..=520, 0u8..6, 0u8..6, any::<u64>(), 0usize..5, 0usize..4, 0usize..3, any::<bool>(), any::<bool>()).prop_map(|(dn, asel, bsel, seed, msel, rt, o, assign, dyn_left)| {
+                use super::wide::{wide_value, WideCase, WideTy, WIDE_RHS};
+                let n = 2560 - dn;
+                let rhs = if dyn_left { WideTy::W8 } else { WIDE_RHS[rt] };
+                let m = [n, n + 40, n.saturating_sub(9), n / 2 + 3, 2560][msel].min(rhs.cap());
+                let (lhs, n) = if dyn_left { (WideTy::D, n + (seed % 700) as usize) } else { (WideTy::W8, n) };
+                C04Case::Wide(WideCase { lhs, a: wide_value(n, asel, seed), rhs, b: wide_value(m, bsel, seed ^ 0x55), op: LOGIC[o], assign })
+            }),
         ]
         .boxed()
     }
@@ -52,11 +62,15 @@ impl Property for C04 {
         ]
     }
     fn enumerate(&self, tier: Tier, sh: &mut Shard, f: &mut dyn FnMut(C04Case) -> bool) {
+        // more than 255 one-byte words in use: Bvf<u8,320>, outside the zoo
+        if !super::wide::enumerate_wide(&LOGIC, tier == Tier::Thorough, sh, &mut |c| f(C04Case::Wide(c))) {
+            return;
+        }
         let k = tier.pick(4, 6);
         let mut rot = 0usize;
         // (i) complete small scope, vector RHS
-        for lt in 0..NT {
-            for rt in 0..NT {
+        for lt in ROUTINE_TIDS {
+            for rt in ROUTINE_TIDS {
                 if !sh.mine() {
                     continue;
                 }
@@ -68,7 +82,7 @@ impl Property for C04 {
                                     for pa in scope_provs(lt) {
                                         for pb in scope_provs(rt) {
                                             rot += 1;
-                                            let c = C04Case::Bin { a: Operand { ty: lt, bits: a.clone(), prov: pa.clone() }, b: Rhs::V(Operand { ty: rt, bits: b.clone(), prov: pb }), op, form: FORMS[rot % 6] };
+                                            let c = C04Case::Bin { a: Operand::fitted(lt, a.clone(), pa.clone()), b: Rhs::V(Operand::fitted(rt, b.clone(), pb)), op, form: FORMS[rot % 6] };
                                             if !f(c) {
                                                 return;
                                             }
@@ -82,7 +96,7 @@ impl Property for C04 {
             }
         }
         // (ii) complete small scope, native RHS over the integer lattice
-        for lt in 0..NT {
+        for lt in ROUTINE_TIDS {
             for nty in NAT_TYS {
                 if !sh.mine() {
                     continue;
@@ -104,8 +118,8 @@ impl Property for C04 {
         }
         // (iii) every LHS length against a longer all-ones RHS
         let lmax = 320;
-        for lt in 0..NT {
-            for rt in 0..NT {
+        for lt in ROUTINE_TIDS {
+            for rt in ROUTINE_TIDS {
                 if !sh.mine() {
                     continue;
                 }
@@ -184,8 +198,55 @@ impl Property for C04 {
                 }
             }
         }
+        // (iii-c) the 70 400-bit fixed type
+        for (lt, rt) in HUGE_PAIRS {
+            if !sh.mine() {
+                continue;
+            }
+            let lc = fixed_cap(lt).unwrap_or(usize::MAX);
+            let rc = fixed_cap(rt).unwrap_or(usize::MAX);
+            for n in HUGE_TYPE_LENS {
+                let n = n.min(lc);
+                for m in [n, n + 64, n / 2 + 7] {
+                    let m = m.min(rc);
+                    for (a, b) in [(long_values(n)[1].clone(), Bits::ones(m)), (long_values(n)[5].clone(), long_values(m)[1].clone())] {
+                        for op in LOGIC {
+                            rot += 1;
+                            if !f(C04Case::Bin { a: Operand::canon(lt, a.clone()), b: Rhs::V(Operand::canon(rt, b.clone())), op, form: FORMS[rot % 6] }) {
+                                return;
+                            }
+                        }
+                    }
+                }
+                if lt == TID_HUGE {
+                    for owned in [false, true] {
+                        if !f(C04Case::Not { a: Operand::canon(lt, long_values(n)[1].clone()), owned }) {
+                            return;
+                        }
+                    }
+                }
+            }
+        }
+        // (iii-d) geometric ladder of lengths up to megabits on the unbounded types
+        for (t, n) in ladder_lengths(tier) {
+            if !sh.mine() {
+                continue;
+            }
+            let other = if t == TID_D { TID_A } else { TID_D };
+            let a = dense_value(n);
+            rot += 1;
+            if !f(C04Case::Not { a: Operand::canon(t, a.clone()), owned: rot % 2 == 0 }) {
+                return;
+            }
+            for (b, op) in [(Operand::canon(other, Bits::ones(n + 1)), LOGIC[n % 3]), (Operand::canon(t, dense_value(n - 3)), LOGIC[(n + 1) % 3]), (Operand { ty: t, bits: Bits::ones(n / 2), prov: Prov::Spare(300) }, LOGIC[(n + 2) % 3])] {
+                rot += 1;
+                if !f(C04Case::Bin { a: Operand::canon(t, a.clone()), b: Rhs::V(b), op, form: FORMS[rot % 6] }) {
+                    return;
+                }
+            }
+        }
         // (iv) not
-        for t in 0..NT {
+        for t in ROUTINE_TIDS {
             if !sh.mine() {
                 continue;
             }
@@ -213,6 +274,16 @@ impl Property for C04 {
 
     fn check(&self, case: &C04Case, st: &mut Stats) -> CheckResult {
         match case {
+            C04Case::Wide(w) => {
+                ensure!(LOGIC.contains(&w.op), "bad-case", "C04 wide case with non-logic operator");
+                super::wide::check_wide(w)?;
+                if w.lhs == super::wide::WideTy::W8 {
+                    super::wide::check_wide_not(&w.a)?;
+                }
+                st.class("Bvf<u8,320>: over 255 one-byte words");
+                st.note(case, w.a.len() % 8 != 0 && !w.a.is_zero() && !w.b.is_zero());
+                Ok(())
+            }
             C04Case::Bin { a, b, op, form } => {
                 let what = format!("{}:{}:{}x{}", op_name(*op), shape_class(a, b), kind_of(a.ty), rhs_kind(b));
                 let za = build_checked(a, "left")?;
